@@ -60,6 +60,7 @@ def install(I):
     M["ipaddress.addr.__str__"] = lambda I, o: IpStr(o.attrs["packed"], o.attrs["version"])
     M["typing.cast"] = lambda I, t, v: v
     M["struct.unpack_from"] = m_unpack_from
+    M["os.path.getsize"] = lambda I, p: _stat_size(I, p)
     M["types.MappingProxyType"] = lambda I, d: d          # read-only VIEW of the same mapping (writes through it are not modelled)
     M["copy.deepcopy"] = m_deepcopy
     M["copy.copy"] = m_deepcopy
@@ -892,6 +893,13 @@ def setitem(I, o, k, v):
 
 
 def delitem(I, o, k):
+    if isinstance(o, ByteArr) and isinstance(k, slice) and k.step is None:
+        cur = o.val
+        n = cur.length
+        lo = core._clip_index(k.start, n, 0)
+        hi = core.smax(lo, core._clip_index(k.stop, n, n))
+        o.val = bcat(bslice(cur, 0, lo), bslice(cur, hi, None))
+        return
     if isinstance(o, dict):
         kk = I.dict_key(k)
         if kk not in o:
@@ -954,6 +962,10 @@ def method_of(I, o, name):
                 return Builtin("bytearray.clear", lambda I: setattr(o, "val", const(b"")))
         if name == "rstrip":
             return Builtin("bytes.rstrip", lambda I, chars=None: _rstrip(I, o, chars))
+        if name == "lstrip":
+            return Builtin("bytes.lstrip", lambda I, chars=None: _lstrip(I, o, chars))
+        if name == "strip":
+            return Builtin("bytes.strip", lambda I, chars=None: _rstrip(I, _lstrip(I, o, chars), chars))
         if name == "startswith":
             return Builtin("bytes.startswith", lambda I, p: bytes_eq(bslice(to_bytes_val(o), 0, to_bytes_val(p).length), p) if True else None)
         if name == "index" or name == "find":
@@ -1142,6 +1154,35 @@ def _rstrip(I, o, chars):
     j = E.fresh_int("j")
     E.add(z3.ForAll([j], z3.Implies(z3.And(j >= m, j < n), T(v.at(SymInt(j))) == ch)))
     return bslice(v, 0, ms)
+
+
+def _stat_size(I, path):
+    """assumed contract of os.path.getsize: SOME non-negative integer - what stat() reports is not determined by what reading the path
+    delivers (named pipes, process substitution, /dev/stdin and /proc files report 0)"""
+    v = core.CUR.fresh_int("stat_size")
+    core.CUR.add(v >= 0)
+    return SymInt(v)
+
+
+def _lstrip(I, o, chars):
+    v = to_bytes_val(o)
+    cb = to_bytes_val(chars).concrete() if chars is not None and isinstance(to_bytes_val(chars), BList) else None
+    if cb is None or len(cb) != 1:
+        raise Unsupported("lstrip with other than one concrete byte")
+    ch = cb[0]
+    c0 = v.concrete() if isinstance(v, BList) else None
+    if c0 is not None:
+        return const(c0.lstrip(cb))
+    z3 = core.z3
+    E = core.CUR
+    m = E.fresh_int("lstrip.skipped")
+    n = T(v.length)
+    E.add(z3.And(m >= 0, m <= n))
+    ms = SymInt(m)
+    E.add(z3.Or(m == n, T(v.at(ms)) != ch))
+    j = E.fresh_int("j")
+    E.add(z3.ForAll([j], z3.Implies(z3.And(j >= 0, j < m), T(v.at(SymInt(j))) == ch)))
+    return bslice(v, ms, v.length)
 
 
 def _decode(I, o):
